@@ -466,6 +466,34 @@ def check_multi(ctx, acc, batch, rows):
     batch.add(exprs, judge)
 
 
+def check_crafted(ctx, acc, batch, rows):
+    cs = [d for d in rows if d["k"] == "crafted"]
+    if not cs:
+        return
+    ok = []
+    for d in cs:
+        acc.count("crafted:%s:delta=%s" % (d["name"], d["delta"]))
+        acc.case(["crafted", d["name"], d["case"], d["delta"]], True)
+        if d["ncoeff"] is None:
+            acc.viol({"case": d, "layer": "crafted prover"}, "the crafted identity-attributes prover could not publish threshold%+d "
+                     "sharing coefficients (the harness no longer reaches that code path)" % d["delta"])
+        elif d["verify"] == "PANIC":
+            acc.viol({"case": d}, "verifier panicked on a proof with %d sharing coefficients for threshold %d" % (d["ncoeff"], d["threshold"]))
+        else:
+            ok.append(d)
+            if (d["verify"] is True) != (d["ncoeff"] == d["claimed_threshold"]):
+                acc.viol({"case": d, "theorem": "identity_attributes_threshold_exact"},
+                         "identity attribute credential with %d sharing-coefficient commitments for the signed threshold %d: verify = %s"
+                         % (d["ncoeff"], d["claimed_threshold"], d["verify"]))
+    exprs = ["identity_attributes_verdict true %d %d true" % (d["claimed_threshold"], d["ncoeff"]) for d in ok]
+
+    def judge(terms):
+        for d, t in zip(ok, terms):
+            if (t == "IAOk") != (d["verify"] is True):
+                acc.viol({"case": d, "model": t}, "verify_identity_attributes: implementation %s, model %s" % (d["verify"], t))
+    batch.add(exprs, judge)
+
+
 def check_lies(ctx, acc, rows, kf_ids):
     for d in rows:
         if d["k"] != "lie":
@@ -664,6 +692,7 @@ def run(ctx):
         nt = check_ties(ctx, acc, batch, pres)
         check_matches(ctx, acc, batch, prow)
         check_multi(ctx, acc, batch, prow)
+        check_crafted(ctx, acc, batch, prow)
         check_lies(ctx, acc, prow, kf_ids)
         for d in prow:
             if d["k"] == "anchor":
